@@ -28,7 +28,7 @@ def run(tier, t0):
     results = [idx.idx(prog, scope, 150, an), idx.cap_callers(prog, scope, 380, cg), idx.cap_callee(prog),
                term.eof(prog, scope, 50), term.rec(prog, cg, [common.ASM_MAIN]), div.div(prog, scope, 60, ctx=dctx),
                lane.wrap_pages(prog, 2), tbl.ttbl(prog), null.null_a(prog, scope, 20), term.pool_fit(prog, cg), expr.cap_protocol(prog), idx.ptr_into_array(prog, scope, an),
-               strs.strs(prog, cg, scope, 10),
+               strs.strs(prog, cg, scope, 10), strs.str_loops(prog, scope, an, 0),
                wrap.wrap_loops(prog, lambda f: f.file.startswith(('fileio/write', 'main/naken_asm', 'core/')), an, 8)]
     return report.finish('C16', tier, results, EXPLANATION,
                          ['the invariants listed for not-decided subscripts were read from the code and replayed under ASan '
